@@ -554,6 +554,113 @@ func runC18(r *core.Run) {
 			return out
 		})
 
+	NN := core.Pick(r, 7, 9)
+	r.Bound("nested-stops", fmt.Sprintf("one iterator value ranged inside its own loop body: every outer position x every inner stop position (and no inner stop) x {outer runs on, outer stops one item later}; PreOrder/PostOrder on every ordered tree up to %d nodes, CanonicalSubsequences on every ACGT sequence up to length 5 x k in 1..2, File of every format on every medium corpus file (plain and .gz), trie ForEach (nested call inside the callback) on every trie over {a,b}^<=2", NN))
+	core.Clause(r, "nested-stops-trees", core.Opts{Rule: "stopping an inner run of the SAME iterator value must be clean for the outer run that is still in progress (all-pairs / triangular loops): inner items are the leading items of an uninterrupted run, exactly s callbacks, and the outer run continues exactly like an uninterrupted one; non-trivial = at least 2 items"},
+		func(emit func(c19Tree) bool) {
+			enum.TreesUpTo(NN, func(c []int) bool { return emit(c19Tree{append([]int(nil), c...)}) })
+		},
+		func(c c19Tree) core.Outcome {
+			root, _ := buildTree(c.Code)
+			rn := func(n *newick.Node) string { return n.Name }
+			o1 := nestedStops(fmt.Sprint("PreOrder on tree ", c.Code), asStrings1(root.PreOrder(), rn), false)
+			if o1.Fail != "" {
+				return o1
+			}
+			o2 := nestedStops(fmt.Sprint("PostOrder on tree ", c.Code), asStrings1(root.PostOrder(), rn), false)
+			if o2.Fail != "" {
+				return o2
+			}
+			o1.Evals += o2.Evals
+			return o1
+		})
+	core.Clause(r, "nested-stops-kmers", core.Opts{Rule: "as nested-stops-trees, for one CanonicalSubsequences iterator value; non-trivial = at least 2 items"},
+		func(emit func(c18Kmer) bool) {
+			enum.Strings("ACGT", 5, func(s string) bool {
+				for k := 1; k <= 2; k++ {
+					if !emit(c18Kmer{core.S(s), k}) {
+						return false
+					}
+				}
+				return true
+			})
+		},
+		func(c c18Kmer) core.Outcome {
+			seq := c.Seq.B()
+			return nestedStops(fmt.Sprintf("CanonicalSubsequences(%q,%d)", seq, c.K), asStrings1(sequtil.CanonicalSubsequences(seq, c.K), func(b []byte) string { return string(b) }), false)
+		})
+	core.Clause(r, "nested-stops-files", core.Opts{Rule: "as nested-stops-trees, for one File(path) iterator value of every format (each run opens the file again); non-trivial = at least 2 items"},
+		func(emit func(c18File) bool) {
+			for _, f := range formats {
+				for i := range corpus(f.Name, "medium") {
+					for _, gz := range []bool{false, true} {
+						if !emit(c18File{f.Name, fmt.Sprint("medium/", i), gz}) {
+							return
+						}
+					}
+				}
+			}
+		},
+		func(c c18File) core.Outcome {
+			data := corpusBy(c.Format, c.Corpus)
+			name := fmt.Sprintf("nested-%s-%x.txt", c.Format, hashBytes(append([]byte(c.Corpus), data...)))
+			disk := data
+			if c.Gz {
+				var zb bytes.Buffer
+				zw := gzip.NewWriter(&zb)
+				zw.Write(data)
+				zw.Close()
+				disk = zb.Bytes()
+				name += ".gz"
+			}
+			path := filepath.Join(scratch, name)
+			if err := os.WriteFile(path, disk, 0o644); err != nil {
+				return core.Outcome{Skip: true}
+			}
+			defer os.Remove(path)
+			var seq iter.Seq[string]
+			switch c.Format {
+			case "fasta":
+				seq = asStrings2(fasta.File(path), renderFasta)
+			case "fastq":
+				seq = asStrings2(fastq.File(path), renderFastq)
+			case "sam":
+				seq = asStrings2(sam.File(path), renderSAM)
+			case "samh":
+				seq = asStrings2(sam.FileHeader(path), renderSAMOrHeader)
+			case "bed":
+				seq = asStrings2(bed.File(path), renderBED)
+			case "newick":
+				seq = asStrings2(newick.File(path), renderNewick)
+			}
+			return nestedStops(fmt.Sprintf("%s.File(%s)", c.Format, name), seq, false)
+		})
+	core.Clause(r, "nested-stops-trie", core.Opts{Rule: "ForEach called again from inside its own callback and stopped at every position, at every outer position: the inner call reports distinct members and exactly s of them, the outer call still reports every member exactly once; every trie over {a,b}^<=2 (subsets of the 6 words); non-trivial = at least 2 members"},
+		func(emit func(c18Trie) bool) {
+			w2 := enum.AllStrings("ab", 2)[1:]
+			for mask := 0; mask < 1<<len(w2); mask++ {
+				var ws []string
+				for i, w := range w2 {
+					if mask>>i&1 == 1 {
+						ws = append(ws, w)
+					}
+				}
+				if !emit(c18Trie{ws}) {
+					return
+				}
+			}
+		},
+		func(c c18Trie) core.Outcome {
+			t := trie.New()
+			for _, w := range c.Words {
+				t.Add([]byte(w))
+			}
+			seq := func(yield func(string) bool) {
+				t.ForEach(func(b []byte) bool { return yield(string(b)) })
+			}
+			return nestedStops(fmt.Sprint("ForEach on trie of ", c.Words), seq, true)
+		})
+
 	LK := core.Pick(r, 5, 6)
 	core.Clause(r, "canonical-kmers", core.Opts{Rule: "CanonicalSubsequences on every sequence over ACGT up to the bound x k in 1..3 x every stop position, both forms; non-trivial = at least 2 items"},
 		func(emit func(c18Kmer) bool) {
